@@ -8,7 +8,8 @@
 (*                 repetition counts the message has                       *)
 (*   phase "mut"   at most MaxMut mutation steps: insert a foreign field,  *)
 (*                 insert a field of the type out of position, duplicate,  *)
-(*                 swap neighbours, corrupt a content, delete a field      *)
+(*                 swap neighbours, corrupt a content, delete a field,     *)
+(*                 change a field's option letter                          *)
 (*   phase "walk"  the reference parser consumes the token sequence        *)
 (*   phase "done"  verdict available; Emit prints the behaviour as JSON    *)
 (*                                                                         *)
@@ -130,6 +131,10 @@ Mutants ==   \* set of <<mutation record, new token sequence>>
         ELSE {})
   \cup (IF "del" \in MutKinds
         THEN {<<[k |-> "del", p |-> p, t |-> toks[p].tag], RemoveAt(toks, p)>> : p \in 1..n}
+        ELSE {})
+  \cup (IF "letter" \in MutKinds      \* same field, another option letter of its family
+        THEN UNION {{<<[k |-> "letter", p |-> p, t |-> t], [toks EXCEPT ![p].tag = t]>> :
+                       t \in SiblingsOf(toks[p].tag)} : p \in 1..n}
         ELSE {})
   \cup (IF "own" \in MutKinds
         THEN {<<[k |-> "own", p |-> p, t |-> t], InsertAt(toks, p, Tok(t))>> :
